@@ -6,79 +6,7 @@ import os
 HERE = os.path.dirname(os.path.dirname(os.path.abspath(__file__)))
 ALL = ['C%02d' % i for i in range(1, 21)]
 
-CLAIMED = {
-    'C18': dict(
-        text='TLC enumerates every (cleaning flags, expected, submitted) case of MC_StringClean inside the bounds '
-             '(all strings <= 3 / <= 4 over a 9-symbol alphabet plus edit variants; accept-any grid; six pattern '
-             'languages), evaluates the property-level oracle StringClean!Outcome and seven laws about it in every '
-             'state; every state is replayed into the real StringGrader, and random long cases recorded from '
-             'StringGrader are validated by the trace specification StringCleanTrace.',
-        note='Trusted: TLC, the symbol<->character map of the adapter, Python re for the rendered finite patterns. '
-             'Bounded-exhaustive plus sampled, not a proof for all strings.',
-        technique='TLA+ oracle + TLC exhaustive case enumeration replayed into the code; TLC trace validation of recorded calls',
-        design='3/C18'),
-}
-
-CLAIMED['C06'] = dict(
-    text='Munkres.tla models compute() step by step (pad, steps 1-6 with the scan orders of the code, collect, reuse); '
-         'TLC checks on every matrix <= 3x3 over {0,1,2} (thorough: also every 4xk/kx4 over {0,1}) that the result is a complete '
-         'minimum-cost matching (against brute force), the dual-feasibility invariant, the duality certificate, that '
-         'the caller matrix is untouched, termination (liveness under weak fairness) and reuse. Every enumerated matrix '
-         'is replayed through the real Munkres.compute; results on random matrices up to 10x10 (integer, tie-heavy, '
-         'dyadic-float, grade-like, reused solver objects, under a wall-clock alarm) are validated by the TLC trace '
-         'spec MunkresResultTrace (brute force up to 4x4, LP-duality certificate above); step states observed through '
-         'instance-level wrappers are validated against the step model by MunkresStepTrace (drift only).',
-    note='Trusted: TLC; the adapter\'s float->integer scaling (only exactly representable float matrices are generated); '
-         'the dual certificate is checked by the spec, its producer is untrusted.',
-    technique='TLA+ step model of the Hungarian solver checked by TLC (safety+liveness); TLC trace validation of real compute() results and step states',
-    design='3/C06')
-
-CLAIMED['C03'] = dict(
-    text='ExprLexer / ExprGrammar / ExprEval specify the formula language from characters to exact rational values. TLC '
-         'enumerates every token string up to 4 (thorough 5) tokens over a 20-token alphabet, every character string up to 4 '
-         '(thorough 6) characters over two lexer alphabets and every operator chain of up to 3 (thorough 4) operators with optional '
-         'negations, checks six laws (canonical round trip, parenthesis / leading-plus transparency, usage consistency) and '
-         'that the parser agrees with a second, independent definition of the value taken directly from the precedence '
-         'table. Every enumerated string is replayed into the real evaluator(): acceptance class, exact value, '
-         'whitespace / number-format / em-dash / space-insertion variants, and agreement of each chain with its '
-         'canonical fully parenthesised form under real and complex bindings. Long random derivations and corruptions '
-         'recorded from evaluator() are validated by the trace specification ExprTrace.',
-    note='Trusted: TLC; float<->rational comparison in the adapter (1e-9 relative, exact values only); numpy/CPython arithmetic. '
-         'Irrational / huge values are compared only through canonical-form agreement, not against an exact value.',
-    technique='TLA+ grammar+evaluator spec; TLC bounded-exhaustive string enumeration replayed into evaluator(); TLC trace validation',
-    design='3/C03')
-
-CLAIMED['C10'] = dict(
-    text='ParserCache.tla models the shared parser as a state machine (cache keyed by the space-stripped string, scratch '
-         'sets filled by grammar callbacks -- also along failing alternatives --, the finally-reset, hand-over of the '
-         'usage sets) with one action per code block; TLC checks HistoryIndependent (every call answers what a fresh parser '
-         'would, i.e. ExprEval!Outcome), ScratchEmpty, CacheSound and that every call ends (liveness) for all call '
-         'histories of length <= 3 (thorough 4) over 14 strings x {parse, evaluate}, and that the model without the reset '
-         'violates the property (vacuity guard). Every TLC history is replayed on the module-level PARSER (never reset '
-         'between histories) and on a per-history parser, each call compared with the model, with a fresh MathParser and '
-         'for aliasing of returned usage sets. Usage exactness is checked on every accepted string of the C03 token and '
-         'character models; long random interleavings with grader calls and sampler construction in between are validated '
-         'by the trace spec ExprTrace.',
-    note='Trusted: TLC; the rendering of model strings; cache-key / scratch-set state comparison is drift only.',
-    technique='TLA+ state machine of the parser cache checked by TLC (safety+liveness); TLC histories replayed on the real shared parser; TLC trace validation',
-    design='3/C10')
-
-CLAIMED['C11'] = dict(
-    text='GraderCall.tla holds the reference machine of the statement (last successfully supplied expect; what a fresh grader '
-         'answers is an uninterpreted term) and the life cycle of ItemGrader.__call__ / AbstractGrader.__call__ with one action '
-         'per code block and the object fields (stored answers, inferring_answers, log_created, the debug log). TLC checks '
-         'SameAsFresh, NoStaleLog, CleanBetweenCalls and that every call ends, for all call histories of length <= 3 (thorough 4) '
-         'over 6 expect kinds x 5 input kinds, configured and unconfigured, and that the two model variants with the original '
-         'block order violate SameAsFresh / NoStaleLog (these were genuine defects, repaired by fix: commits). Every TLC history '
-         '(length 2 quick / 3 thorough) is replayed on String, Formula, Numerical, Matrix, SingleList and Interval graders with '
-         'debug on and off: each call is compared with freshly constructed graders, the object fields with the model state '
-         '(drift), and process-wide settings and the author configuration dictionaries with snapshots. Long random sequences '
-         'over many grader objects with bystander graders in between are validated by GraderCallTrace, where the TLA+ '
-         'reference machine decides which fresh answer each call must equal.',
-    note='Trusted: TLC; freshly constructed graders run with the same random seed are the oracle for a single call; '
-         'the debug line "Expect value inferred" is ignored in comparisons.',
-    technique='TLA+ life-cycle state machine + reference machine checked by TLC; TLC histories replayed against fresh graders; TLC trace validation',
-    design='3/C11')
+CLAIMED = json.load(open(os.path.join(HERE, 'tools', 'claims.json')))
 
 REASON_PENDING = 'check not built yet in this revision; the design (DESIGN.md section 3) covers it and it will be claimed once its spec and binding exist'
 
